@@ -3,7 +3,7 @@
    memory_pool_collection; implementation logs (results, ranges handed to the lists via the guarded insert
    hook, upstream calls, capacity figures after every operation) are replayed against acc_op. *)
 From Coq Require Import ZArith List Bool.
-From FM Require Import FixedStack SmallCarve PoolSpec SlotProofs ListLib PoolSpecProofs OrderedList OrderedListProofs UnorderedList UnorderedListProofs InvalidRelease SmallList SmallListProofs SmallRefine UnorderedRefine OrderedRefine.
+From FM Require Import FixedStack SmallCarve PoolSpec SlotProofs ListLib PoolSpecProofs OrderedList OrderedListProofs UnorderedList UnorderedListProofs InvalidRelease SmallList SmallListProofs SmallRefine UnorderedRefine OrderedRefine CollExec CollExecProofs CollInst CollSizes CollInstProofs Arena Stack.
 Import ListNotations.
 Local Open Scope Z_scope.
 
@@ -165,3 +165,21 @@ Example C04_nonvacuous :
   | None => False
   end.
 Proof. vm_compute. reflexivity. Qed.
+
+(* the Exec models of memory_pool_collection (CollExec.v, all three list types): over any history no list loses capacity -- once
+   everything taken from a list has been released, its pool_capacity_left is at least what it was before the history *)
+Theorem C04_collection_exec_capacity_never_lost : forall log2 os s sp s' tr, UCPR s sp -> ucoll_answers_ok log2 s sp os -> uc_run log2 s os = Some (s', tr) ->
+  exists sp', PoolSpecProofs.run sp tr = Some sp' /\ UCPR s' sp' /\
+    forall key n n', cc_nfree ug ug_ns ug_free s key = Some n -> cc_nfree ug ug_ns ug_free s' key = Some n' -> list_has_no_allocations sp' key -> n <= n'.
+Proof. exact ucoll_capacity_never_lost. Qed.
+Print Assumptions C04_collection_exec_capacity_never_lost.
+Theorem C04_ordered_collection_exec_capacity_never_lost : forall log2 os s sp s' tr, OCPR s sp -> ocoll_answers_ok log2 s sp os -> oc_run log2 s os = Some (s', tr) ->
+  exists sp', PoolSpecProofs.run sp tr = Some sp' /\ OCPR s' sp' /\
+    forall key n n', cc_nfree og og_ns og_free s key = Some n -> cc_nfree og og_ns og_free s' key = Some n' -> list_has_no_allocations sp' key -> n <= n'.
+Proof. exact ocoll_capacity_never_lost. Qed.
+Print Assumptions C04_ordered_collection_exec_capacity_never_lost.
+Theorem C04_small_collection_exec_capacity_never_lost : forall log2 os s sp s' tr, SCPR s sp -> scoll_answers_ok log2 s sp os -> sc_run log2 s os = Some (s', tr) ->
+  exists sp', PoolSpecProofs.run sp tr = Some sp' /\ SCPR s' sp' /\
+    forall key n n', cc_nfree smg sg_ns sg_free s key = Some n -> cc_nfree smg sg_ns sg_free s' key = Some n' -> list_has_no_allocations sp' key -> n <= n'.
+Proof. exact scoll_capacity_never_lost. Qed.
+Print Assumptions C04_small_collection_exec_capacity_never_lost.
